@@ -357,9 +357,18 @@ def check_cvxpy(case, ctx):
     ctx.label(case["tomo"], case["shape"], "cvx:" + case["cvx_loss"], "data:" + case["datadesc"]["data"])
     loss = {"use": CvxpyUniformSquaredError, "re": CvxpyRelativeEntropy,
             "are": CvxpyApproximateRelativeEntropyWithZeroProbabilityTerm}[case["cvx_loss"]]()
-    res = CvxpyLossMinimizationEstimator().calc_estimate(
-        qt, empi, loss, CvxpyLossFunctionOption(), CvxpyMinimizationAlgorithm(),
-        CvxpyMinimizationAlgorithmOption(name_solver="scs", eps_tol=1e-9))
+    import warnings
+
+    with warnings.catch_warnings(record=True) as caught:
+        warnings.simplefilter("always")
+        res = CvxpyLossMinimizationEstimator().calc_estimate(
+            qt, empi, loss, CvxpyLossFunctionOption(), CvxpyMinimizationAlgorithm(),
+            CvxpyMinimizationAlgorithmOption(name_solver="scs", eps_tol=1e-9))
+    if any("inaccurate" in str(w.message).lower() for w in caught):
+        # SCS stopped at its iteration limit ("Solution may be inaccurate"): the solver did not reach its stopping
+        # accuracy, so nothing can be concluded about the estimate "up to the stopping accuracy"
+        ctx.skip("scs-inaccurate")
+        return
     z = tomo.estimate_stacked(res.estimated_qoperation)
     ctx.check(np.all(np.isfinite(z)), "cvxpy_estimate_finite")
     scale = 1 + float(np.linalg.norm(z))
